@@ -14,7 +14,9 @@ Regenerated from the tree under test on every run:
   ``_set_http_status`` turns into ``200 + X-VGI-RPC-Error``;
 * socket: the guarded block's single ``except Exception`` handler writes an error stream and returns;
 * shape fingerprints (statement structure with messages erased) of ``_validate_params``, ``_deserialize_params``
-  and the metadata / row-count checks of ``_read_request``.
+  and the metadata / row-count checks of ``_read_request``;
+* whether the request schema ``_validate_call_signature`` sees is recorded after or before the request batch is
+  resolved from a shared-memory / external pointer.
 
 Anything that does not have exactly the expected shape raises TranslationBroken.
 """
@@ -395,7 +397,7 @@ READ_CHECKS = [
 ]
 
 
-def _shapes(repo: Path) -> None:
+def _shapes(repo: Path) -> bool:
     tree = _parse(repo, WIRE)
     for name, want in (("_validate_params", VALIDATE_PARAMS_SHAPE), ("_deserialize_params", DESER_PARAMS_SHAPE)):
         got = _shape(_body(_func(tree, name, WIRE + ":" + name)))
@@ -432,8 +434,23 @@ def _shapes(repo: Path) -> None:
     if len(kw) != 1 or ast.unparse(kw[0].value) != "{f.name: batch.column(i)[0].as_py() for i, f in enumerate(batch.schema)}":
         raise TranslationBroken(site, "kwargs construction changed")
     sch = [n for n in ast.walk(fn) if isinstance(n, ast.Call) and ast.unparse(n) == "_current_request_param_schema.set(batch.schema)"]
-    if len(sch) != 1 or not (raising[3][0] < sch[0].lineno <= kw[0].lineno):
-        raise TranslationBroken(site, "request schema is not recorded from the batch the kwargs come from")
+    if len(sch) != 1 or not isinstance(getattr(sch[0], "lineno", None), int):
+        raise TranslationBroken(site, "request schema is not recorded exactly once")
+    # where is it recorded relative to pointer resolution?  `batch` is rebound by resolve_external_location and
+    # resolve_shm_batch; recorded after both (and before the kwargs are decoded) = the schema of the resolved batch,
+    # recorded before both = the schema of the inline (pointer) batch.  Anything in between is outside the model.
+    rebinds = [n.lineno for n in ast.walk(fn) if isinstance(n, ast.Assign) and _callee(n.value) in ("resolve_shm_batch", "resolve_external_location")]
+    if len(rebinds) != 2:
+        raise TranslationBroken(site, f"expected the batch to be rebound by exactly two pointer resolutions, found {len(rebinds)}")
+    others = [n.lineno for n in ast.walk(fn) if isinstance(n, (ast.Assign, ast.AugAssign, ast.AnnAssign)) and n.lineno not in rebinds
+              and any(isinstance(t, ast.Name) and t.id == "batch" for tgt in (n.targets if isinstance(n, ast.Assign) else [n.target]) for t in ast.walk(tgt))]
+    if others:
+        raise TranslationBroken(site, f"`batch` is rebound elsewhere (lines {others})")
+    if max(rebinds) < sch[0].lineno <= kw[0].lineno:
+        return True
+    if sch[0].lineno < min(rebinds):
+        return False
+    raise TranslationBroken(site, "request schema recorded between the two pointer resolutions")
 
 
 def source_facts(repo: Path) -> dict[str, Any]:
@@ -447,8 +464,9 @@ def source_facts(repo: Path) -> dict[str, Any]:
         raise TranslationBroken("http", "catch-all status and method-error status differ; the model has one field for both")
     pre, fchecks = _validate_call_signature(repo)
     branches = _deserialize_value(repo)
-    _shapes(repo)
+    resolved = _shapes(repo)
     return {
+        "schema_resolved": resolved,
         "order_sock": sock, "order_unary": un["order"], "order_init": st["order"], "pre": pre, "fchecks": fchecks,
         "dbranches": branches, "conv": un["conv"], "c400": un["c400"], "other": un["other"], "marker": _set_http_status(repo),
     }
@@ -465,6 +483,6 @@ def coq_module(repo: Path) -> str:
         "Definition gen_cfg : cfg := {|\n"
         f"  c_order_sock := {lst(f['order_sock'])};\n  c_order_unary := {lst(f['order_unary'])};\n  c_order_init := {lst(f['order_init'])};\n"
         f"  c_pre := {lst(f['pre'])};\n  c_fchecks := {lst(f['fchecks'])};\n  c_dbranches := {lst(f['dbranches'])};\n"
-        f"  c_conv := {lst(f['conv'])};\n  c_400 := {lst(f['c400'])};\n  c_other_status := {f['other']};\n  c_marker_status := {f['marker']}\n|}}.\n"
+        f"  c_conv := {lst(f['conv'])};\n  c_400 := {lst(f['c400'])};\n  c_schema_resolved := {'true' if f['schema_resolved'] else 'false'};\n  c_other_status := {f['other']};\n  c_marker_status := {f['marker']}\n|}}.\n"
         "Definition run_case := run_case_with gen_cfg.\n"
     )
